@@ -64,6 +64,12 @@ def tasks(tier, seed, selftest=False):
         sk = (st,) if st == "build" else (st, "allseeds")
         S.append(dict(family="U2", skeleton=sk, timebox=120))
         S.append(dict(family="D3", skeleton=sk, timebox=30 if q else 1800))
+        # modular networks: a 3-variable component constrained by the solver to have a motif-avoidant attractor,
+        # next to an independent switch / source (products are composed from the components' atoms)
+        S.append(dict(family="P:MAA3+SW2", skeleton=sk, timebox=40 if q else 900))
+        if not q:
+            S.append(dict(family="P:MAA3+SRC1", skeleton=sk, timebox=600))
+            S.append(dict(family="P:D3+SW2", skeleton=sk, timebox=600))
         if q:
             S.append(dict(family="B21", skeleton=sk, timebox=15))
         else:
@@ -78,7 +84,7 @@ def main(tier, seed, t0, selftest=False):
     results = common.run_tasks(tasks(tier, seed, selftest))
     return common.finish(PROP, tier, seed, "model_checking", results, t0, selftest=selftest, functions=FUNCTIONS,
                          bounds={"strategies": "build, expand_block(), expand_bfs(), expand_dfs(), expand_scc(), expand_attractor_seeds() with default settings",
-                                 "families": "U2 exhaustive; D3, B21 time-boxed (quick); U3 cubes, B22, CH4, S2C2, S1C3, reversed oracle order (thorough)",
+                                 "families": "U2 exhaustive; D3, B21, P:MAA3+SW2 (5 variables: motif-avoidant core x switch) time-boxed (quick); U3 cubes, B22, CH4, S2C2, S1C3, reversed oracle order (thorough)",
                                  "outside": "n > 4"},
                          assumptions=["contract stubs of DESIGN.md §8 validated on every representative",
                                       "compute_attractors_symbolic is a region oracle specified through REACH (its inside is decided by C12/C13)"])
